@@ -114,11 +114,13 @@ func variant(hex40 string, k int) string {
 // reset puts the real system into the initial state of a behaviour: a stable block (id 0) that persists
 // sv (0 = account absent), no unconfirmed blocks, and the in-memory account trie EMPTY although accounts
 // exist on disk - the state of a node that has just been started.
-//   hard: new directory, genesis written and stabilised, Close(), NewChainDataBase() again.
-//   soft (after the first behaviour of a process, only if the previous one ended normally): the open
-//         database is kept; a new child R of the current stable block writes sv for this behaviour's own
-//         addresses and is stabilised (which prunes every leftover block), then LastConfirm's account trie
-//         is replaced by an empty one - exactly what reopening does to it (NewGenesisBlock).  R is id 0.
+//
+//	hard: new directory, genesis written and stabilised, Close(), NewChainDataBase() again.
+//	soft (after the first behaviour of a process, only if the previous one ended normally): the open
+//	      database is kept; a new child R of the current stable block writes sv for this behaviour's own
+//	      addresses and is stabilised (which prunes every leftover block), then LastConfirm's account trie
+//	      is replaced by an empty one - exactly what reopening does to it (NewGenesisBlock).  R is id 0.
+//
 // The Restart ACTION always really closes and reopens the database.
 func (s *sys) reset(sv []int) engine.Fields {
 	tab, ok := tables[s.table]
